@@ -149,6 +149,7 @@ type NotDecided struct {
 }
 
 var notDecided map[string]string
+var extraEvidence any
 
 type KnownFinding struct {
 	Property   string `json:"property"`
@@ -286,6 +287,8 @@ func cmdCheck(args []string) int {
 	verif := fs.String("verif", "/verif", "")
 	prop := fs.String("property", "", "property id, or 'all'")
 	tier := fs.String("tier", "quick", "")
+	outDir := fs.String("out", "", "directory for evidence/ and replay/ (default: the verif directory)")
+	extraFile := fs.String("extra", "", "JSON file whose content is added to the evidence under coverage.thorough_extra")
 	fs.Parse(args)
 	t0 := time.Now()
 	seed := 0
@@ -373,10 +376,20 @@ func cmdCheck(args []string) int {
 	}
 	solveS := time.Since(t0).Seconds()
 	exit := 0
-	os.MkdirAll(filepath.Join(*verif, "evidence"), 0o755)
-	os.MkdirAll(filepath.Join(*verif, "replay"), 0o755)
+	if *outDir == "" {
+		*outDir = *verif
+	}
+	extraEvidence = nil
+	if *extraFile != "" {
+		var x any
+		if loadJSON(*extraFile, &x) == nil {
+			extraEvidence = x
+		}
+	}
+	os.MkdirAll(filepath.Join(*outDir, "evidence"), 0o755)
+	os.MkdirAll(filepath.Join(*outDir, "replay"), 0o755)
 	for _, p := range props {
-		if checkProperty(rc, p, *tier, seed, *verif, bl, kfs, sel, oprops, byObl, vacuous, solveS, t0) != 0 {
+		if checkProperty(rc, p, *tier, seed, *outDir, bl, kfs, sel, oprops, byObl, vacuous, solveS, t0) != 0 {
 			exit = 1
 		}
 	}
@@ -549,6 +562,7 @@ func checkProperty(rc *runCtx, p, tier string, seed int, verif string, bl Baseli
 			"unmodelled_callees":   unmodelled,
 			"vacuity":              fmt.Sprintf("%d functions checked for a reachable return (cover query sat); vacuous: %d", len(fns), len(vacuous)),
 			"violations_detail":    viols2(viols),
+			"thorough_extra":       extraEvidence,
 		},
 		"assumptions": assumptions(),
 	}
